@@ -63,7 +63,7 @@ impl<'a> G<'a> {
             2 => { self.facts.features.push("array-field"); format!("{} {name}[{}];", self.value_ty(), self.r.range(1, 40)) }
             3 => { self.facts.features.push("fnptr-field"); format!("{} (*{name})({});", self.scalar(), if self.r.chance(1, 2) { "int, double".into() } else { self.any_ty() }) }
             4 => { self.facts.features.push("anon-member"); let inner = self.scalar(); let inner2 = self.scalar(); format!("{} {{ {inner} a{idx}; {inner2} b{idx}; }}{};", if self.r.chance(1, 2) { "struct" } else { "union" }, if self.r.chance(1, 2) { String::new() } else { format!(" {name}") }) }
-            5 => { self.facts.features.push("array2-field"); format!("{} {name}[{}][{}];", self.scalar(), self.r.range(1, 5), self.r.range(1, 5)) }
+            5 => { self.facts.features.push("array2-field"); let inner = if self.r.chance(1, 3) { self.r.range(33, 70) } else { self.r.range(1, 5) }; format!("{} {name}[{}][{}];", self.scalar(), self.r.range(1, 5), inner) }
             6 => { self.facts.features.push("large-array"); format!("{} {name}[{}];", self.scalar(), self.r.range(33, 70)) }
             _ => format!("{} {name};", self.scalar()),
         }
@@ -97,9 +97,14 @@ impl<'a> G<'a> {
         let name = if anon { String::new() } else { self.fresh("E") };
         let n = self.r.range(1, 6);
         let mut vs = vec![];
+        let mut names: Vec<String> = vec![];
         for i in 0..n {
-            let v = self.plain(&format!("EV{i}_"));
-            vs.push(match self.r.below(6) { 0 => format!("{v} = -{}", self.r.below(100)), 1 => format!("{v} = {}", self.r.below(5)), 2 => format!("{v} = 0x7fffffff"), 3 if i > 0 => format!("{v} = {}", vs.len()), _ => v });
+            // enumerators are a naming position too: keywords / `$` / trailing `_`, also as aliases of an
+            // earlier enumerator (duplicate value: emitted as associated constants in the Rust-enum styles)
+            let v = if self.r.chance(1, 3) { self.fresh(&format!("EV{i}_")) } else { self.plain(&format!("EV{i}_")) };
+            names.push(v.clone());
+            vs.push(match self.r.below(7) { 0 => format!("{v} = -{}", self.r.below(100)), 1 => format!("{v} = {}", self.r.below(5)), 2 => format!("{v} = 0x7fffffff"), 3 if i > 0 => format!("{v} = {}", vs.len()),
+                4 | 5 if i > 0 => { let k = self.r.below(i) as usize; format!("{v} = {}", names[k]) }, _ => v });
         }
         let _ = writeln!(self.out, "enum {name} {{ {} }};", vs.join(", "));
         self.facts.features.push(if anon { "anon-enum" } else { "enum" });
@@ -258,6 +263,16 @@ pub fn gen_cpp_header(r: &mut Rng) -> (String, Facts) {
         }
     }
     for _ in 0..ns_depth { g.out.push_str("}\n"); }
+    // two namespaces exporting variables, constants and functions under the same unqualified
+    // names (distinct items that map to one Rust name once namespaces are not mangled in)
+    if g.r.chance(1, 3) {
+        let stem = g.plain("twin");
+        let t = g.scalar();
+        for side in ["a", "b"] {
+            let _ = writeln!(g.out, "namespace {stem}_{side} {{\n  extern {t} {stem}_v;\n  const int {stem}_k = {};\n  int {stem}_f(int x);\n  extern const char *const {stem}_names[4];\n}}", if side == "a" { 48000 } else { 60 });
+        }
+        g.facts.features.push("twin-namespaces");
+    }
     (g.out, g.facts)
 }
 
@@ -293,7 +308,7 @@ pub fn gen_options(r: &mut Rng, cpp: bool, facts: &Facts) -> OptSet {
     on(r, 1, 3, "--sort-semantically");
     on(r, 1, 3, "--merge-extern-blocks");
     on(r, 1, 3, "--wrap-unsafe-ops");
-    if cpp { on(r, 1, 2, "--enable-cxx-namespaces"); }
+    if cpp { on(r, 1, 2, "--enable-cxx-namespaces"); on(r, 1, 3, "--disable-name-namespacing"); }
     if r.chance(1, 2) { f.push("--default-enum-style".into()); f.push((*r.pick(&["consts", "moduleconsts", "bitfield", "newtype", "newtype_global", "rust", "rust_non_exhaustive"])).into()); }
     if r.chance(1, 3) { f.push("--default-alias-style".into()); f.push((*r.pick(&["type_alias", "new_type", "new_type_deref"])).into()); }
     if r.chance(1, 3) { f.push("--default-non-copy-union-style".into()); f.push((*r.pick(&["bindgen_wrapper", "manually_drop"])).into()); }
